@@ -6,8 +6,12 @@ import (
 	"fmt"
 	"os"
 	"path/filepath"
+	"runtime/pprof"
 	"strconv"
+	"time"
 )
+
+var dbgEngine *Engine
 
 func verifDir() string {
 	if d := os.Getenv("VERIF_DIR"); d != "" {
@@ -33,6 +37,27 @@ func main() {
 		if err := json.Unmarshal([]byte(*specJSON), &spec); err != nil {
 			fmt.Fprintln(os.Stderr, "bad spec:", err)
 			os.Exit(2)
+		}
+		if pp := os.Getenv("GOSYM_PPROF"); pp != "" {
+			f, _ := os.Create(pp)
+			pprof.StartCPUProfile(f)
+			go func() {
+				d, _ := strconv.Atoi(os.Getenv("GOSYM_PPROF_S"))
+				if d == 0 {
+					d = 60
+				}
+				time.Sleep(time.Duration(d) * time.Second)
+				pprof.StopCPUProfile()
+				f.Close()
+				fmt.Fprintln(os.Stderr, "profile written")
+				if dbgEngine != nil {
+					fmt.Fprintf(os.Stderr, "instrs=%d states=%d queries=%d solver=%.1fs paths=%d merges=%d\n", dbgEngine.Instrs, dbgEngine.States, dbgEngine.solver.Queries, dbgEngine.solver.Wall.Seconds(), dbgEngine.PathsEnded, dbgEngine.Merges)
+					for _, f := range dbgEngine.curFn {
+						fmt.Fprintln(os.Stderr, "  in", f)
+					}
+				}
+				os.Exit(3)
+			}()
 		}
 		res, err := runHarness(verifDir(), spec, *seed, *thorough)
 		if err != nil {
